@@ -76,6 +76,18 @@ type renderResult struct {
 // the types it saw first) shows in whatever property's oracle looks at the output.
 var decoyCounter int
 
+// altEngine builds the engine for one harness render. Every third engine is built the other documented way — New(WithFS(fs), …) instead of
+// NewFS(fs, …): the two constructors are the same engine
+var engineCounter int
+
+func altEngine(mfs fstest.MapFS, opts ...vuego.LoadOption) vuego.Template {
+	engineCounter++
+	if engineCounter%3 == 0 && os.Getenv("VERIF_NO_DECOY") == "" {
+		return vuego.New(append([]vuego.LoadOption{vuego.WithFS(mfs)}, opts...)...)
+	}
+	return vuego.NewFS(mfs, opts...)
+}
+
 func decoyOf(v any) any {
 	switch x := v.(type) {
 	case nil:
@@ -151,7 +163,7 @@ func renderPage(files map[string]string, page string, data any, opts ...vuego.Lo
 			done <- res
 		}()
 		var buf bytes.Buffer
-		t := vuego.NewFS(mfs, opts...)
+		t := altEngine(mfs, opts...)
 		decoyRender(func(d any) { _ = t.Load(page).Fill(d).Render(context.Background(), io.Discard) })(data)
 		err := t.Load(page).Fill(data).Render(context.Background(), &buf)
 		res.Out = buf.String()
@@ -183,7 +195,7 @@ func renderPageAfter(files map[string]string, page string, first, data any, viaV
 			}
 			done <- res
 		}()
-		t := vuego.NewFS(mfs, opts...)
+		t := altEngine(mfs, opts...)
 		run := func(d any, w io.Writer) error {
 			if viaVue {
 				return vuego.VerifVue(t).Render(w, page, d)
@@ -225,7 +237,7 @@ func renderPageVue(files map[string]string, page string, data any, opts ...vuego
 			done <- res
 		}()
 		var buf bytes.Buffer
-		vv := vuego.VerifVue(vuego.NewFS(mfs, opts...))
+		vv := vuego.VerifVue(altEngine(mfs, opts...))
 		decoyRender(func(d any) { _ = vv.Render(io.Discard, page, d) })(data)
 		err := vv.Render(&buf, page, data)
 		res.Out = buf.String()
